@@ -34,18 +34,33 @@ def generate(ck, prop, tier, seed):
                                               "TagNumbers": "{0, 16}"}, timeout=3000),
                             "generation (multi-field)")
         ck.add_mc(g2, "Gen_ProtoCodec(2 fields, kinds %s)" % ",".join(sub))
+        # one Go type under two encodings in the same message (tagged and plain), in both orders and every cardinality:
+        # codecs are cached by Go type while they are built
+        twins = [("x32", "u32"), ("x64", "u64"), ("s32", "i32"), ("s64", "i64")]
+        if not thorough:
+            twins = [twins[seed % 4], twins[(seed + 1) % 4]]
+        nt = 0
+        for a, b in twins:
+            gt = vlib.must_hold(vlib.tlc("ProtoCodec", "Gen_ProtoCodec.cfg", workers=8, sink=sink, tag="ProtoCodec-twins-" + a,
+                                         defines={"MaxFields": 2, "GenKinds": tla_set([a, b]), "MaxId": 1, "TagNumbers": "{0, 16}"}, timeout=3000),
+                                "generation (twin kinds %s / %s)" % (a, b))
+            ck.add_mc(gt, "Gen_ProtoCodec(2 fields, twin kinds %s,%s)" % (a, b))
+            nt += gt.vectors
+        ck.notes["twin_vectors"] = nt
     if g1.vectors + g2.vectors == 0:
         raise vlib.Infra("no vectors")
     ck.notes["kinds_subset"] = sub
     return vec
 
 
-def run(prop, tier, seed, rule, assumptions, shards=4, isolate=False, vlimit_kb=None, timeout=3000):
+def run(prop, tier, seed, rule, assumptions, shards=4, isolate=False, vlimit_kb=None, timeout=3000, extra_vec=None):
     ck = vlib.Check(prop, tier, seed)
     vec = generate(ck, prop, tier, seed)
     kept, total = vlib.cap_vectors(vec, 400000 if tier == "thorough" else 40000, seed, keep_first=ck.notes.get("first_part", 0))
     ck.notes["vectors_generated"], ck.notes["vectors_replayed"] = total, kept
     ck.exhaustive_replay = kept == total
+    if extra_vec:
+        extra_vec(ck, vec)      # further vectors, never sampled away
     ck.binary = vlib.build_harness()
     rr = vlib.run_harness(ck.binary, prop, vec, seed=seed, tier=tier, shards=shards, timeout=timeout,
                           isolate=isolate, vlimit_kb=vlimit_kb)
